@@ -96,7 +96,7 @@ class C11(UdpCheck):
         nf = rng.choice([3, 6, 10])
         for j in range(nf):
             kind = rng.choice(["random", "magic", "header", "hello-replay", "hello-replay", "hello-mutated", "hello-short",
-                               "mutate-genuine"])
+                               "mutate-genuine", "hello-reseq", "hello-reseq"])
             srcmode = rng.choice(["fresh", "fresh", "victim", "blocked", "port0", "one"])
             plan.append({"op": "flood", "global": True, "t": round(0.6 + rng.random() * (dur - 4.5), 3), "kind": kind,
                          "srcmode": srcmode, "count": rng.choice([100, 400, 1500]), "spread": rng.choice([0.0, 0.05, 0.5]),
@@ -147,6 +147,15 @@ class C11(UdpCheck):
                 d = rng.randbytes(40)
             elif kind == "hello-replay":
                 d = hello
+            elif kind == "hello-reseq":
+                # a well-formed hello is only CRC protected: give it any sequence number (fresh ones near the victim's)
+                h = R.dec_header(hello)
+                near = att.last_hdr.get("c%d" % op["victim"], {"seq": 1})["seq"]
+                seq = R.ring_add(near, rng.choice([1, 2, 5, 40, 1000])) if rng.random() < 0.7 else rng.randrange(1, 65536)
+                hh = R.enc_header(False, h["ctime"], seq, h["ack"], h["type"], h["length"], h["count"], h["ack_bits"])
+                body = bytearray(hello[R.HDR:R.HDR + h["length"]])
+                body[0:2] = struct.pack(">H", rng.randrange(1, 65536))       # and any message sequence number
+                d = R.seal_crc(hh, bytes(body))
             elif kind == "mutate-genuine":
                 lgv = att.log.get("c%d>S" % op["victim"]) or lg
                 b = bytearray(lgv[-1][2])
